@@ -29,6 +29,10 @@ add("C06","E1 enum","exploration",
     "Every equality/ordering predicate (ct_eq/ct_lt/ct_gt, Eq/Ord/PartialOrd, cmp_vartime, eq_vartime, zero/one/odd/even tests, comparisons with Odd/NonZero wrappers; Limb, Uint<1,2,3,4,8,16>, Int, BoxedUint pairs of independent precision incl. zero-padded equal values) on complete pair products is compared with the mathematical (BigUint / two's-complement) order; a == b must imply equal hashes under two hashers; every selector/assign/swap/negate with both choice values must return the chosen operand bit for bit; ConstCtOption is_some/unwrap_or.",
     ASSUME, "bounded-exhaustive enumeration of operand pairs x predicates on the real code against a BigUint order oracle", "DESIGN.md §3.C06")
 
+add("C07","E1 enum","exploration",
+    "Every modular add/sub/neg/double/mul form (ct, vartime, special-modulus, traits, assign; Uint<1,2,3,4,6,8,12,16>, BoxedUint 1..=20 limbs) and halving (through the Montgomery forms) for every modulus of a structured set incl. 1,2,3, 2^BITS-1, 2^(BITS-1)+-1, zero-high-limb moduli and every 2^BITS-c for c in L13: ALL residue pairs for p <= 64, otherwise the complete square of a residue set closed under x -> p-x and +-1. Result must be the canonical value in [0,p).",
+    ASSUME, "bounded-exhaustive enumeration (true exhaustiveness over residues for small moduli) on the real code against BigUint % p", "DESIGN.md §3.C07")
+
 NOT_YET = {}
 ALL = [f"C{i:02d}" for i in range(1,21)]
 import os, sys
